@@ -161,6 +161,41 @@ macro_rules! attach {
     }};
 }
 
+/// poll subscriber k once (`single`) or until it has nothing more; received diffs are read and a few kept alive
+fn poll_sub(
+    subs: &mut Vec<Option<(Vector<Elem>, AnyStream)>>,
+    k: usize,
+    single: bool,
+    waker: &Waker,
+    kept: &mut Vec<VectorDiff<Elem>>,
+) {
+    if let Some(Some((_, st))) = subs.get_mut(k) {
+        let mut cx = Context::from_waker(waker);
+        let mut n = 0;
+        loop {
+            n += 1;
+            let r: Poll<Option<Vec<VectorDiff<Elem>>>> = match st {
+                AnyStream::Plain(s) => s.as_mut().poll_next(&mut cx).map(|o| o.map(|d| vec![d])),
+                AnyStream::Batched(s) => s.as_mut().poll_next(&mut cx),
+            };
+            match r {
+                Poll::Ready(Some(ds)) => {
+                    for d in ds {
+                        touch(&d);
+                        if kept.len() < 8 {
+                            kept.push(d);
+                        }
+                    }
+                }
+                _ => break,
+            }
+            if single || n > 10000 {
+                break;
+            }
+        }
+    }
+}
+
 pub fn run_line(line: &str, out: &mut String) {
     // fresh ledger per case
     LIVE.with(|l| l.borrow_mut().clear());
@@ -239,7 +274,17 @@ pub fn run_line(line: &str, out: &mut String) {
                             let _ = catch(|| txn.remove(a[0]).read());
                         }
                         "t.truncate" => txn.truncate(args(ta)[0]),
-                        _ => {} // polls etc. inside a transaction are not exercised in this mode
+                        // subscribers live outside the borrow of the vector: they can be polled and
+                        // dropped while the transaction is open
+                        "poll" | "drain" => poll_sub(&mut subs, args(ta)[0], tn == "poll", &waker, &mut kept),
+                        "dropsub" => {
+                            let k = args(ta)[0];
+                            if k < subs.len() {
+                                subs[k] = None;
+                            }
+                        }
+                        "dropdiffs" => kept.clear(),
+                        _ => {} // entry traversal inside a transaction is exercised in mode ovec
                     }
                 }
                 continue;
@@ -325,34 +370,7 @@ pub fn run_line(line: &str, out: &mut String) {
                     }
                     subs.push(Some(built));
                 }
-                "poll" | "drain" => {
-                    let k = args(arg)[0];
-                    if let Some(Some((_, st))) = subs.get_mut(k) {
-                        let mut cx = Context::from_waker(&waker);
-                        let mut n = 0;
-                        loop {
-                            n += 1;
-                            let r: Poll<Option<Vec<VectorDiff<Elem>>>> = match st {
-                                AnyStream::Plain(s) => s.as_mut().poll_next(&mut cx).map(|o| o.map(|d| vec![d])),
-                                AnyStream::Batched(s) => s.as_mut().poll_next(&mut cx),
-                            };
-                            match r {
-                                Poll::Ready(Some(ds)) => {
-                                    for d in ds {
-                                        touch(&d);
-                                        if kept.len() < 8 {
-                                            kept.push(d);
-                                        }
-                                    }
-                                }
-                                _ => break,
-                            }
-                            if name == "poll" || n > 10000 {
-                                break;
-                            }
-                        }
-                    }
-                }
+                "poll" | "drain" => poll_sub(&mut subs, args(arg)[0], name == "poll", &waker, &mut kept),
                 "dropsub" => {
                     let k = args(arg)[0];
                     if k < subs.len() {
